@@ -24,6 +24,11 @@
 (*           decryptor at position (N' = hi*65536+lo, last); ok: it was       *)
 (*           accepted; wrote: bytes it released (16-bit halves: TLC integers  *)
 (*           are 32-bit signed)                                               *)
+(*  keycheck intact: after the Decrypt call (and its stream) ended, the key    *)
+(*           bytes that the caller's key provider RETAINS and hands out on    *)
+(*           every unwrap (a key cache / in-memory vault) are unchanged       *)
+(*  pool     twice: after the stream ended, some buffer sits in the package's *)
+(*           buffer pool more than once (so two later streams would share it) *)
 (*                                                                            *)
 (* Laws:                                                                      *)
 (*  L1  every released byte is part of a prefix of the original plaintext     *)
@@ -34,6 +39,12 @@
 (*  L6  a forged document releases nothing and never ends in a clean EOF:     *)
 (*      the unwrapped key is not the document's key, whatever Decrypt         *)
 (*      substitutes internally when the unwrap callback fails                 *)
+(*  L7  Decrypt never modifies memory owned by the caller's key provider (a    *)
+(*      wiped cached key turns the next unwrap into "the all-zero key, no     *)
+(*      error": valid documents stop decrypting and zero-key forgeries pass)  *)
+(*  L8  pool discipline: a buffer is given back to the pool at most once, even *)
+(*      on the rejection path (otherwise a later stream hands another         *)
+(*      stream's raw input to its reader as "authenticated" plaintext)        *)
 (*  L5  position binding over the whole 32-bit counter range: a segment opens *)
 (*      iff (N', last') = (N, last); a rejected segment releases nothing      *)
 (*                                                                            *)
@@ -83,5 +94,7 @@ CNext(c, e) ==
          [] e.ev = "decrypt" -> [c EXCEPT !.decErr = e.err]
          [] e.ev = "release" -> CRelease(c, e)
          [] e.ev = "openat"  -> COpenAt(c, e)
+         [] e.ev = "keycheck" -> IF e.intact THEN c ELSE Bad("caller's retained key bytes were modified")
+         [] e.ev = "pool"    -> IF e.twice THEN Bad("pooled buffer is in the pool twice") ELSE c
          [] e.ev = "end"     -> CEnd(c, e)
 =============================================================================
